@@ -88,6 +88,14 @@ fn mk(gc: &GraphCase, s: &Schedule, problems: &[String]) -> Violation {
 }
 
 pub fn replay(case: &Value) -> Vec<Violation> {
+    if let Some(src) = case["shared_project"].as_str() {
+        let s = Schedule(case["schedule"].as_array().map(|a| a.iter().map(|x| x.as_u64().unwrap_or(0) as usize).collect()).unwrap_or_default());
+        let run = run_lib(&crate::gen::Project::single(src.to_string()), &Cfg::mode(true), &s);
+        return match run.file("types.ts").map(order_problems) {
+            Some(Ok(p)) if !p.is_empty() => vec![Violation::new("C09", "use-before-definition", p.join("; "), case.clone()).field("contexts", "bare + tuple + module path, every type also used by a command").field("schedule", "replayed")],
+            _ => vec![],
+        };
+    }
     let Ok(gc) = serde_json::from_value::<GraphCase>(case["graph"].clone()) else { return vec![] };
     let s = Schedule(case["schedule"].as_array().map(|a| a.iter().map(|x| x.as_u64().unwrap_or(0) as usize).collect()).unwrap_or_default());
     let run = run_lib(&gc.project(), &Cfg::mode(true), &s);
@@ -129,6 +137,13 @@ pub fn run(tier: Tier) -> CheckResult {
                     continue;
                 }
                 cases.push(GraphCase { n: *n, mask: *mask, root: if (gi + ctx) % 4 == 0 { Root::ReturnOk } else { Root::Param }, ctx, deviate: None, layout, derive_style: (gi + ctx) % 4, zod: true, naming: 0 });
+                // the other naming schemes (caseless scripts, names that contain each other, ...) on
+                // the direct, tuple and module-path contexts
+                if *n <= 3 && [0usize, 6, 10].contains(&ctx) && layout == 0 {
+                    for naming in 1..c07::NAMINGS.len() {
+                        cases.push(GraphCase { n: *n, mask: *mask, root: Root::Param, ctx, deviate: None, layout: (gi + naming) % 3, derive_style: 0, zod: true, naming });
+                    }
+                }
             }
         }
         let n_edges = mask.count_ones() as usize;
@@ -209,6 +224,55 @@ pub fn run(tier: Tier) -> CheckResult {
             *g.entry(k).or_default() += v;
         }
     });
+    // every type also has a use of its own (a command taking it inside a container) while the
+    // fields mention their dependencies bare, inside a tuple and through a module path: for every
+    // naming scheme and every assignment of its names to the three roles
+    let mut shared_runs = 0u64;
+    {
+        let mut projects: Vec<(String, crate::gen::Project)> = vec![];
+        for (ni, names) in c07::NAMINGS.iter().enumerate() {
+            for a in 0..4 {
+                for b in 0..4 {
+                    for c in 0..4 {
+                        if a == b || a == c || b == c {
+                            continue;
+                        }
+                        let (n0, n1, n2) = (names[a], names[b], names[c]);
+                        let src = format!(
+                            "{}#[derive(Serialize, Deserialize)]\npub struct {n0} {{ pub id: i32, pub first: {n1}, pub second: ({n2}, u32), pub third: models::{n1} }}\n#[derive(Serialize, Deserialize)]\npub struct {n1} {{ pub id: i32, pub inner: {n2} }}\n#[derive(Serialize, Deserialize)]\npub enum {n2} {{ One, Two }}\n#[tauri::command]\npub fn take_all(x: Vec<{n0}>) -> bool {{ true }}\n#[tauri::command]\npub fn take_mid(y: Option<{n1}>) -> bool {{ true }}\n#[tauri::command]\npub fn take_leaf(z: Vec<{n2}>) -> Option<{n2}> {{ None }}\n",
+                            crate::gen::PRELUDE,
+                            n0 = n0,
+                            n1 = n1,
+                            n2 = n2
+                        );
+                        projects.push((format!("naming {} roles {}>{}>{}", ni, n0, n1, n2), crate::gen::Project::single(src)));
+                    }
+                }
+            }
+        }
+        let pv: Vec<Violation> = projects
+            .par_iter()
+            .flat_map(|(label, project)| {
+                let mut out = vec![];
+                let (_count, _complete) = explore_schedules(Some(1), 200, |s| {
+                    let run = run_lib(project, &Cfg::mode(true), s);
+                    if let Some(Ok(p)) = run.file("types.ts").map(order_problems) {
+                        if !p.is_empty() && out.is_empty() {
+                            out.push(
+                                Violation::new("C09", "use-before-definition", format!("{} under iteration-order schedule {:?}: {}", label, s.0, p.join("; ")), json!({"shared_project": project.files[0].1, "schedule": s.0}))
+                                    .field("contexts", "bare + tuple + module path, every type also used by a command")
+                                    .field("schedule", if s.0.iter().all(|c| *c == 0) { "identity" } else { "deviating" }),
+                            );
+                        }
+                    }
+                    run.trace
+                });
+                out
+            })
+            .collect();
+        shared_runs += projects.len() as u64;
+        violations.lock().unwrap().extend(pv);
+    }
     let mut all_v = violations.into_inner().unwrap();
     all_v.sort_by_key(|v| (v.rank, v.key()));
     let mut seen = BTreeSet::new();
@@ -228,13 +292,14 @@ pub fn run(tier: Tier) -> CheckResult {
     res.coverage.set("evaluations", runs.load(Ordering::Relaxed));
     res.coverage.set("distinct_nontrivial", nontrivial.load(Ordering::Relaxed));
     res.coverage.set("dags", graphs.len() as u64);
+    res.coverage.set("shared_use_projects", shared_runs);
     res.coverage.set("choice_points_by_site", json!(*site_stats.lock().unwrap()));
     res.coverage.set("schedule_cap_hits", capped.load(Ordering::Relaxed));
     res.coverage.set("outputs_not_parsable_here", not_parsable.load(Ordering::Relaxed));
     res.coverage.set("exhaustive", exhaustive);
     res.coverage.set("hooks_enabled", crate::run::HOOKS_ENABLED);
     res.coverage.set("samples", json!(cases.iter().step_by((cases.len() / 4).max(1)).take(4).collect::<Vec<_>>()));
-    res.coverage.set("rule", format!("states = (labelled DAG on 1..{} nodes [thorough: + 5-node shapes with 3..4 edges], constructor context of the edges [uniform / one deviating], file layout); transitions = one in-process Zod generation per iteration-order schedule at hook sites S1 (files), S5 (topological roots), S6 (per-node dependencies): full product for <= 3 nodes, deviation bound {} beyond; oracle on every run: in the parsed types.ts every schema constant read outside a function body is defined earlier, and all parameter schemas follow all struct/enum schemas; the first run of every state is executed twice to expose uncontrolled nondeterminism. Non-trivial = at least one hook site had >= 2 elements to order.", max_n, if tier == Tier::Quick { 1 } else { 2 }));
+    res.coverage.set("rule", format!("states = (labelled DAG on 1..{} nodes [thorough: + 5-node shapes with 3..4 edges], constructor context of the edges [uniform / one deviating], file layout); transitions = one in-process Zod generation per iteration-order schedule at hook sites S1 (files), S5 (topological roots), S6 (per-node dependencies): full product for <= 3 nodes, deviation bound {} beyond; oracle on every run: in the parsed types.ts every schema constant read outside a function body is defined earlier, and all parameter schemas follow all struct/enum schemas; the first run of every state is executed twice to expose uncontrolled nondeterminism. Plus 144 three-type projects (six naming schemes x every assignment of names to roles) in which every type is also used by a command of its own while fields mention dependencies bare, in a tuple and through a module path. Non-trivial = at least one hook site had >= 2 elements to order.", max_n, if tier == Tier::Quick { 1 } else { 2 }));
     res.assumptions = vec!["iteration orders are owned through the verif-hooks sites; the sort that follows a hook site normalises the order, so a change that drops the sort is what the schedules expose".into()];
     let _ = c07::ROOTS;
     res
